@@ -70,6 +70,8 @@ type Backend struct {
 	Gate func(step string)
 	// Delay: Mail and Rcpt take that long (time.Sleep: the virtual clock inside a bubble) - a slow backend
 	Delay time.Duration
+	// DataDelay: Data/LMTPData take that long before they start reading and once more before they return.
+	DataDelay time.Duration
 	// SlowAbort: a delivery whose reader failed (connection lost, RSET, STARTTLS ...) takes that long to clean up
 	// before Data returns (time.Sleep: the virtual clock inside a bubble).
 	SlowAbort time.Duration
@@ -311,7 +313,15 @@ func (b *Backend) gate(step string) {
 	}
 }
 
-func (s *sess) consume(kind string, r io.Reader, status smtp.StatusCollector) (err error) {
+func (s *sess) consume(kind string, r io.Reader, status smtp.StatusCollector) error {
+	err := s.consume0(kind, r, status)
+	if s.b.DataDelay > 0 {
+		time.Sleep(s.b.DataDelay)
+	}
+	return err
+}
+
+func (s *sess) consume0(kind string, r io.Reader, status smtp.StatusCollector) (err error) {
 	b := s.b
 	b.mu.Lock()
 	idx := b.nmsg
@@ -333,6 +343,9 @@ func (s *sess) consume(kind string, r io.Reader, status smtp.StatusCollector) (e
 		b.mu.Unlock()
 	}()
 	b.gate(fmt.Sprintf("m%d:enter", idx))
+	if b.DataDelay > 0 {
+		time.Sleep(b.DataDelay)
+	}
 	setStatus := func(after bool) {
 		for _, sc := range plan.Status {
 			if sc.AfterRead == after && status != nil {
